@@ -8,6 +8,7 @@ rolls at the first write, rolls at a seeded max_size, rolls when the scheduler c
 rollover()/fileno() at a seeded step -- each over a simulated temporary file with its
 own write-back size, next to the io.BytesIO / io.StringIO reference.
 """
+import errno
 import io
 
 from simkit import core, shrinkers
@@ -29,7 +30,11 @@ RULE = ('A case is (bytes|text, a history of 1-25 operations from appending writ
         'io reference returns at every step and agree on tell(). Non-trivial: some replica rolled over strictly '
         'between two operations that both touched data and the history contained a multi-byte character or \\r '
         '(text) / a read after a seek (bytes); for MultiFileReader: a sized read crossed a member boundary or '
-        'followed seek(0). distinct = distinct case hashes among those.')
+        'followed seek(0). distinct = distinct case hashes among those. One replica in four runs with a full disk '
+        'at the first physical write of its temporary file (one-shot ENOSPC): when that hits the copy made by the '
+        'rollover, the operation may fail but everything written before must still be there, at the same '
+        'position, and the object must go on working; a fault that fires at any other moment ends the judging of '
+        'that replica.')
 COMPONENTS = {'real': ['boltons.ioutils.SpooledBytesIO', 'boltons.ioutils.SpooledStringIO', 'boltons.ioutils.MultiFileReader',
                        'codecs.EncodedFile', 'CPython io.BufferedRandom over the simulated temp file'],
               'stub': ['tempfile.TemporaryFile as seen by ioutils (simfs anonymous file with a seeded write-back size)',
@@ -43,7 +48,7 @@ ASSUMPTIONS = ['reference = io.BytesIO() / io.StringIO() (lines end at \\n only)
 
 SELFTEST_MUTANT = 'bytes-len-without-flush'
 REQUIRED_PROBES = ['rollover_mid_history', 'scheduler_rollover', 'mfr_read_crosses_member_boundary',
-                   'mfr_sized_read_after_seek0']
+                   'mfr_sized_read_after_seek0', 'rollover_copy_failed_state_intact']
 iou = None
 _REAL_OS = None
 
@@ -149,6 +154,10 @@ def gen_case(rng, tier):
                 {'max_size': rng.choice([rng.randint(2, 40), 21333, 21400, 50000]), 'bufsize': rng.choice([1, 8, 64, 8192]), 'roll_at': None},
                 {'max_size': 1 << 40, 'bufsize': rng.choice([1, 8, 64, 8192]),
                  'roll_at': rng.randint(0, nops), 'roll_how': rng.choice(['rollover', 'fileno'])}]
+    if rng.random() < 0.25:
+        # fault injection: the disk is full for the first physical write of the temporary file (one-shot)
+        replicas.append({'max_size': rng.choice([rng.randint(2, 40), 5, 9]), 'bufsize': rng.choice([1, 8, 64, 8192]),
+                         'roll_at': rng.choice([None, None, rng.randint(0, nops)]), 'roll_how': 'rollover', 'enospc': True})
     return {'mode': 'text' if text else 'bytes', 'ops': ops, 'replicas': replicas,
             'chunk': 21333 if nops and ops[0][0] == 'write' and len(ops[0][1]) > 20000 else rng.choice([21333, 21333, 7, 3]),
             'getvalue_every_step': rng.random() < 0.3}
@@ -302,8 +311,9 @@ def run_case(case):
     reps = []
     for rc in case['replicas']:
         fs = simfs.SimFS()
-        sim = simfs.Sim(fs, simfs.Plan(), None, blksize=8192)
-        reps.append({'cfg': rc, 'sim': sim, 'f': None, 'rolled_at': None})
+        plan = simfs.Plan(faults={('raw.write', 0): ('errno', errno.ENOSPC)}) if rc.get('enospc') else simfs.Plan()
+        sim = simfs.Sim(fs, plan, None, blksize=8192)
+        reps.append({'cfg': rc, 'sim': sim, 'f': None, 'rolled_at': None, 'dropped': False})
     for rp in reps:
         rp['fac'] = _install(rp['sim'], rp['cfg']['bufsize'])
         rp['f'] = cls(max_size=rp['cfg']['max_size'])
@@ -325,11 +335,21 @@ def run_case(case):
                 seeked = True
             if name in ('read', 'readline', 'readlines', 'next', 'iternext', 'list') and seeked:
                 read_after_seek = True
+            faulted = any(rp['cfg'].get('enospc') and not rp['dropped'] for rp in reps)
+            ref_pre = (ref.getvalue(), ref.tell()) if faulted else None
             want = _do(ref, op, text, ref_len)
             log.add('op', i, name, repr(want)[:200])
             for ri, rp in enumerate(reps):
+                if rp['dropped']:
+                    continue
                 _install(rp['sim'], rp['cfg']['bufsize'], rp['fac'])
                 f = rp['f']
+                if rp['cfg'].get('enospc'):
+                    r = _faulted_step(rp, f, op, i, text, ref_len, ref_pre, out)
+                    if r == 'dropped':
+                        continue
+                    if r is not None:
+                        return _fail(out, log, 'rollover-failure-lost-data', i, case, ri, op, r[0], r[1], steps)
                 # "has rolled over" is observed at the seam (a temporary file was requested), not through
                 # a private attribute of the object
                 if rp['cfg'].get('roll_at') == i and not rp['fac'].made:
@@ -338,7 +358,7 @@ def run_case(case):
                     else:
                         f.rollover()
                     out.fault('scheduler_rollover')
-                got = _do(f, op, text, ref_len)
+                got = rp.pop('pre_done', None) or _do(f, rp.pop('retry_op', op), text, ref_len)
                 steps += 1
                 if rp['fac'].made and rp['rolled_at'] is None:
                     rp['rolled_at'] = i
@@ -353,16 +373,29 @@ def run_case(case):
                 elif got != want:
                     return _fail(out, log, 'spooled-diverges', i, case, ri, op, got, want, steps)
                 # position after every step
+                spent = bool(rp['sim'].fired)
                 t = _do(f, ['tell'], text, 0)
                 if t != ('ok', ref.tell()):
+                    if rp['sim'].fired and not spent:
+                        rp['dropped'] = True          # the injected disk-full fired inside the harness's own probe
+                        continue
                     return _fail(out, log, 'position-diverges', i, case, ri, op, t, ('ok', ref.tell()), steps)
                 if case.get('getvalue_every_step'):
                     g = _do(f, ['getvalue'], text, 0)
                     if g != ('ok', ref.getvalue()):
+                        if rp['sim'].fired and not spent:
+                            rp['dropped'] = True
+                            continue
                         return _fail(out, log, 'content-diverges', i, case, ri, op, g, ('ok', ref.getvalue()), steps)
+                if rp['sim'].fired and not spent:
+                    rp['dropped'] = True              # fired in a probe without visible effect: stop judging anyway
         # end: same content and position
         for ri, rp in enumerate(reps):
+            if rp['dropped']:
+                continue
             _install(rp['sim'], rp['cfg']['bufsize'], rp['fac'])
+            if rp['cfg'].get('enospc') and not rp['sim'].fired:
+                continue                              # the fault is still pending: the final probes would trip it
             g = _do(rp['f'], ['getvalue'], text, 0)
             if g != ('ok', ref.getvalue()):
                 return _fail(out, log, 'content-diverges', len(case['ops']), case, ri, ['getvalue'], g,
@@ -386,6 +419,55 @@ def run_case(case):
     if nontriv:
         out.nontrivial.append(core.h64([case['mode'], case['ops'], case['replicas'], case.get('chunk')]))
     return out
+
+
+def _faulted_step(rp, f, op, i, text, ref_len, ref_pre, out):
+    """Replica whose temporary file meets a full disk at its first physical write.  If that happens while the
+    content is being copied to the new temporary file (the operation that requested it), the operation may fail,
+    but then the object must still hold everything written before, at the same position, and go on working;
+    the fault is one-shot, so the step is then executed again by the caller.  A fault that fires at any other
+    moment hits data the temporary file had already accepted: nothing is demanded, the replica is dropped.
+    -> None (go on) | 'dropped' | (got, want)"""
+    sim, fac = rp['sim'], rp['fac']
+    if sim.fired:
+        return None                                  # the fault is spent
+    made_before = bool(fac.made)
+    exc = None
+    try:
+        if rp['cfg'].get('roll_at') == i and not fac.made:
+            f.rollover()
+            out.fault('scheduler_rollover')
+    except OSError as e:
+        exc = e
+    if exc is None and not sim.fired:
+        got = _do(f, op, text, ref_len)
+        if not sim.fired:
+            rp['pre_done'] = got                     # already executed: the caller must not repeat it
+            return None
+        if got[0] != 'exc' or made_before or not fac.made:
+            rp['dropped'] = True
+            out.probe('enospc_outside_rollover')
+            return 'dropped'
+    elif exc is None:
+        rp['dropped'] = True                         # fired while rolling over explicitly without raising
+        return 'dropped'
+    out.fault('enospc_during_rollover_copy')
+    g, t = _do(f, ['getvalue'], text, 0), _do(f, ['tell'], text, 0)
+    allowed = [(('ok', ref_pre[0]), ('ok', ref_pre[1]))]
+    if op[0] == 'writelines' and exc is None:
+        # writelines is a sequence of writes: those before the one that hit the full disk have happened
+        acc, pos = ref_pre[0], ref_pre[1]
+        for item in op[1]:
+            piece = item if text else bytes.fromhex(item)
+            acc, pos = acc + piece, pos + len(piece)
+            allowed.append((('ok', acc), ('ok', pos)))
+    if (g, t) not in allowed:
+        return ((g, t), allowed[0])
+    k = allowed.index((g, t))
+    if k > 0:
+        rp['retry_op'] = ['writelines', op[1][k:], op[2]]      # the caller writes the rest
+    out.probe('rollover_copy_failed_state_intact')
+    return None
 
 
 def _fail(out, log, cls, i, case, ri, op, got, want, steps):
